@@ -5,6 +5,7 @@ package fsmworld
 import (
 	"fmt"
 	"math/rand/v2"
+	"os"
 	"reflect"
 	"sort"
 	"strings"
@@ -37,6 +38,10 @@ func (C07) Generate(rng *rand.Rand, tier string, runIdx uint64) simkit.Plan {
 	p.Cfg.Extra = map[string]string{"dualstack": simkit.Pick(rng, []string{"off", "off", "on"}), "inplace": fmt.Sprint(w.InPlaceKind)}
 	if simkit.Chance(rng, 70) {
 		p.Steps = append(p.Steps, Step{Op: "sysmeta.set", Key: "virtual-ips", Val: "true"})
+		if simkit.Chance(rng, 70) {
+			// the second feature marker: terminating gateways advertise the virtual IPs of the services linked to them
+			p.Steps = append(p.Steps, Step{Op: "sysmeta.set", Key: "virtual-ips-term-gateway", Val: "true"})
+		}
 	}
 	for len(p.Steps) < n {
 		switch {
@@ -220,6 +225,46 @@ func checkCatalog(rep *Replica, r *simkit.Run, inPlace bool) *c07Finding {
 	if len(freeAndUsed) > 0 {
 		sort.Strings(freeAndUsed)
 		return &c07Finding{"vip-conflict", "free-list-disjoint-from-assigned", "assigned virtual IP is also on the free list: " + strings.Join(freeAndUsed, ", ")}
+	}
+	if os.Getenv("VERIF_DEBUG_C07") != "" {
+		for _, v := range vips {
+			fmt.Printf("DEBUG vip %s -> %v manual=%v\n", v.Service.String(), v.IP, v.ManualIPs)
+		}
+		for _, s := range cat.Services {
+			fmt.Printf("DEBUG svc %s/%s kind=%q tagged=%v\n", s.Node, s.ServiceID, s.ServiceKind, s.ServiceTaggedAddresses)
+		}
+		fmt.Println("DEBUG ---")
+	}
+	// a terminating gateway advertises the virtual IP of every service linked to it
+	for _, s := range cat.Services {
+		if s.ServiceKind != structs.ServiceKindTerminatingGateway || s.PeerName != "" {
+			continue
+		}
+		for _, key := range simkit.SortedKeys(s.ServiceTaggedAddresses) {
+			if !strings.HasPrefix(key, structs.TaggedAddressVirtualIP+":") {
+				continue
+			}
+			sn := structs.ServiceNameFromString(strings.TrimPrefix(key, structs.TaggedAddressVirtualIP+":"))
+			want, err := st.VirtualIPForService(structs.PeeredServiceName{ServiceName: sn})
+			if err != nil {
+				panic(err)
+			}
+			if got := s.ServiceTaggedAddresses[key].Address; got != want {
+				return &c07Finding{"vip-conflict", "advertised-virtual-ip-is-current-assignment", fmt.Sprintf("gateway instance %s/%s advertises virtual IP %s for service %s, which is assigned %q", s.Node, s.ServiceID, got, sn.String(), want)}
+			}
+		}
+	}
+	// no two nodes of one cluster (or one peer) share a node id
+	nodeIDs := map[string]string{}
+	for _, n := range cat.Nodes {
+		if n.ID == "" {
+			continue
+		}
+		k := n.PeerName + "/" + strings.ToLower(string(n.ID))
+		if other, dup := nodeIDs[k]; dup {
+			return &c07Finding{"orphan", "node-id-unique", fmt.Sprintf("nodes %q and %q (peer %q) share node id %s: a rename by id left the old registration behind", other, n.Node, n.PeerName, n.ID)}
+		}
+		nodeIDs[k] = n.Node
 	}
 	for _, s := range cat.Services {
 		ta, ok := s.ServiceTaggedAddresses[structs.TaggedAddressVirtualIP]
